@@ -90,11 +90,12 @@ def get(features=(), overflow=True):
         fcntl.flock(lock, fcntl.LOCK_UN); lock.close()
 
 def _prune(keep):
-    """keep the cache small: remove dumps of other trees older than the newest 3"""
+    """keep the cache small: remove dumps of other trees beyond the newest 3, but never one touched in the last 2 hours
+    (a concurrent check of another tree may be writing or reading it)"""
     root = os.path.join(CACHE, 'mir')
     ds = sorted((os.path.getmtime(os.path.join(root, x)), x) for x in os.listdir(root) if os.path.isdir(os.path.join(root, x)))
     for _, x in ds[:-3]:
-        if os.path.join(root, x) != keep: shutil.rmtree(os.path.join(root, x), ignore_errors=True)
+        if os.path.join(root, x) != keep and time.time() - _ > 7200: shutil.rmtree(os.path.join(root, x), ignore_errors=True)
 
 if __name__ == '__main__':
     r = get(tuple(a for a in sys.argv[1:] if not a.startswith('-')), overflow='--wrap' not in sys.argv)
